@@ -695,6 +695,9 @@ class Engine:
 
     def st_For(self, st, env):
         it = self.eval(st.iter, env)
+        spec = self.policy.get(("loop", env.func_key(), _loop_ordinal(env, st)))
+        if spec is not None:
+            return self.for_by_invariant(spec, st, env, it)
         items = self.iterate(it, node=st, env=env)
         broke = False
         for x in items:
@@ -749,6 +752,47 @@ class Engine:
                 self.require(f"{tag}.{cname}.step", clause, kind="inv")
             raise PathCut(tag)
         self.exec_block(st.orelse, env)
+
+    def for_by_invariant(self, spec, st, env, it):
+        """`for target in seq` over a sequence of symbolic length n with invariant Inv(state, i):
+        base Inv(0); step: havoc, assume 0 <= i < n and Inv(i), run the body on seq[i], check Inv(i+1)
+        (the path ends there); exit: havoc, assume Inv(n), continue after the loop.  Paths that raise
+        inside the body end as ordinary raising paths; path.loop_ctx tells the contract which i."""
+        seq = self.as_symiter(it)
+        if seq is None:
+            if isinstance(it, (list, tuple)):
+                seq = SymList(len(it), lambda e, i, it=it: self.getitem(list(it), i))
+            else:
+                raise Unsupported("loop invariant over a non-sequence", st)
+        n = seq.n if is_z(seq.n) else z3.IntVal(seq.n)
+        tag = spec.name
+        self.assume(n >= 0)
+        for cname, clause in spec.invariant(self, env, z3.IntVal(0)):
+            self.require(f"{tag}.{cname}.base", clause, kind="inv")
+        exit_b = z3.Bool(self.path.fresh("loop_exit!" + tag.split("#")[-1]))
+        spec.havoc(self, env)
+        if self.branch(exit_b):
+            for cname, clause in spec.invariant(self, env, n):
+                self.assume(clause)
+            self.path.__dict__.setdefault("loop_ctx", {})[tag] = ("exit", n)
+            if st.orelse:
+                self.exec_block(st.orelse, env)
+            return
+        i = z3.Int(self.path.fresh("it!" + tag.split("#")[-1]))
+        self.assume(z3.And(i >= 0, i < n))
+        for cname, clause in spec.invariant(self, env, i):
+            self.assume(clause)
+        self.path.__dict__.setdefault("loop_ctx", {})[tag] = ("step", i)
+        self.assign(st.target, seq.at(self, i), env)
+        try:
+            self.exec_block(st.body, env)
+        except ContinueSignal:
+            pass
+        except BreakSignal:
+            raise Unsupported("break in a loop handled by invariant", st)
+        for cname, clause in spec.invariant(self, env, i + 1):
+            self.require(f"{tag}.{cname}.step", clause, kind="inv")
+        raise PathCut(tag)
 
     def st_Break(self, st, env):
         raise BreakSignal()
@@ -951,6 +995,9 @@ class Engine:
                 self.assign(e, x, env)
         elif isinstance(target, ast.Attribute):
             o = self.eval(target.value, env)
+            h = self.policy.get(("ghost_attr", env.func_key(), target.attr))
+            if h is not None:
+                v = h(self, v)
             self.setattr(o, target.attr, v)
         elif isinstance(target, ast.Subscript):
             c = self.eval(target.value, env)
